@@ -1,0 +1,57 @@
+//go:build verif
+
+package jsonapi
+
+// Contracts for SoftCollection as an ordered in-memory store (C19).
+
+// scWf: every stored resource is non-nil; (after SetType) shares the collection's type.
+//@ spec scNoNil(s *SoftCollection) = forall i int :: 0 <= i && i < len(s.col) ==> s.col[i] != nil
+//@ spec scSameType(s *SoftCollection) = forall i int :: 0 <= i && i < len(s.col) ==> s.col[i].Type == s.Type
+//@ spec scHasID(s *SoftCollection, id string) = exists i int :: 0 <= i && i < len(s.col) && s.col[i].id == id
+
+//@ func SoftCollection.Len
+//@ props C19
+//@ requires nonnil: s != nil
+//@ ensures len: result == len(s.col)
+
+//@ func SoftCollection.At
+//@ props C19
+//@ requires nonnil: s != nil
+//@ ensures in-range: 0 <= i && i < len(s.col) ==> dyn(result) == type[*SoftResource] && num(result) == s.col[i]
+//@ ensures out-of-range: (i < 0 || i >= len(s.col)) ==> result == nil
+
+//@ func SoftCollection.GetType
+//@ props C19
+//@ requires nonnil: s != nil && s.Type != nil
+//@ ensures typ: result == *s.Type
+
+//@ func SoftCollection.AddAttr
+//@ props C19
+//@ requires nonnil: s != nil && s.Type != nil
+//@ requires wf: attrsWf(s.Type.Attrs)
+//@ modifies obj[Type](s.Type), map[map[string]Attr](s.Type.Attrs), new[map[string]Attr]
+//@ ensures accept: (result == nil) == (attr.Name != "" && validKind(attr.Type) && !(attr.Name in old(mapdom(s.Type.Attrs))))
+//@ ensures added: result == nil ==> attr.Name in s.Type.Attrs && s.Type.Attrs[attr.Name] == attr
+//@ ensures wf: attrsWf(s.Type.Attrs)
+
+//@ func SoftCollection.AddRel
+//@ props C19
+//@ requires nonnil: s != nil && s.Type != nil
+//@ requires wf: relsWf(s.Type.Rels)
+//@ modifies obj[Type](s.Type), map[map[string]Rel](s.Type.Rels), new[map[string]Rel]
+//@ ensures accept: (result == nil) == (rel.FromName != "" && rel.ToType != "" && !(rel.FromName in old(mapdom(s.Type.Rels))))
+//@ ensures added: result == nil ==> rel.FromName in s.Type.Rels && s.Type.Rels[rel.FromName] == rel
+//@ ensures wf: relsWf(s.Type.Rels)
+
+//@ func SoftCollection.Remove
+//@ flag absolute-quantifiers
+//@ props C19
+//@ requires nonnil: s != nil
+//@ requires elems: scNoNil(s)
+//@ modifies obj[SoftCollection](s), elems[*SoftResource](s.col)
+//@ ensures absent-noop: !old(scHasID(s, id)) ==> s.col == old(s.col) && (forall i int :: 0 <= i && i < len(s.col) ==> s.col[i] == old(s.col[i]))
+//@ ensures length: old(scHasID(s, id)) ==> len(s.col) == old(len(s.col)) - 1
+//@ ensures before: forall i int, j int :: 0 <= i && i < old(len(s.col)) && old(s.col[i].id) == id && (forall m int :: 0 <= m && m < i ==> old(s.col[m].id) != id) && 0 <= j && j < i ==> s.col[j] == old(s.col[j])
+//@ ensures after: forall i int, j int :: 0 <= i && i < old(len(s.col)) && old(s.col[i].id) == id && (forall m int :: 0 <= m && m < i ==> old(s.col[m].id) != id) && i <= j && j < len(s.col) ==> s.col[j] == old(s.col[j + 1])
+//@ ensures elems: scNoNil(s)
+//@ loop 0 invariant none-so-far: forall k int :: 0 <= k && k <= $idx ==> s.col[k].id != id
